@@ -20,7 +20,11 @@
 using namespace mh;
 
 namespace fam_lockhash {
-    Params decode_params( Case const& c, ContKind kind ) { return decode_params_c16( c, kind, LOCKHASH_SEQUENTIAL == 0 ); }
+    #ifndef LOCKHASH_MAX_KEY
+#   define LOCKHASH_MAX_KEY ( LOCKHASH_SEQUENTIAL ? 7 : 3 )
+#endif
+    // more than 4 keys: only tuples with a low-bit bijection (cannot run into the open CuckooSet::resize() finding)
+    Params decode_params( Case const& c, ContKind kind ) { return decode_params_c16( c, kind, LOCKHASH_MAX_KEY <= 3 ); }
 }
 
 namespace {
@@ -28,7 +32,7 @@ namespace {
         LOCKHASH_CUCKOO_VARIANTS
         LOCKHASH_STRIPED_VARIANTS
     };
-    const MapHarnessConfig kConfig = { LOCKHASH_HARNESS_NAME, kVariants, sizeof( kVariants ) / sizeof( kVariants[0] ), LOCKHASH_SEQUENTIAL ? 7 : 3,
+    const MapHarnessConfig kConfig = { LOCKHASH_HARNESS_NAME, kVariants, sizeof( kVariants ) / sizeof( kVariants[0] ), LOCKHASH_MAX_KEY,
         LOCKHASH_SEQUENTIAL != 0, false };
 }
 
